@@ -476,6 +476,48 @@ def d10_container(ctx, mod):
          'flag of the correlator = common flag of all defined entries')
 
 
+def d12_hankel_and_nan(ctx, mod):
+    rule = 'C14-D7'
+    f = mod.func('Corr.Hankel')
+    tests = [x.test for x in walk(f) if isinstance(x, ast.If) and 'periodic' in unparse(x.test) and any(isinstance(y, ast.Compare) for y in ast.walk(x.test))]
+    key = 'correlators.py:Corr.Hankel#cut-off'
+    if len(tests) != 1:
+        ctx.unrec(rule, key, 'non-periodic cut-off test not found (%d)' % len(tests))
+    else:
+        wrong = []
+        try:
+            for T_ in range(3, 9):
+                class _S:
+                    T = T_
+                for N_ in range(1, 4):
+                    for t_ in range(T_):
+                        got = bool(eval(compile(ast.Expression(body=tests[0]), '<cutoff>', 'eval'), {'__builtins__': {}}, {'self': _S, 'periodic': False, 'N': N_, 't': t_}))
+                        if got != (t_ + 2 * (N_ - 1) > T_ - 1):
+                            wrong.append((T_, N_, t_))
+            ctx.check(rule, key, not wrong, 'without periodicity a timeslice is undefined exactly when its last entry C(t + 2(N-1)) lies beyond T-1',
+                      'the cut-off `%s` is wrong for (T, N, t) = %s: an entry beyond the lattice is wrapped around to C(0)' % (unparse(tests[0]), wrong[:4]), mod.loc(f))
+        except Exception as ex_:
+            ctx.unrec(rule, key, 'cannot evaluate %s: %r' % (unparse(tests[0]), ex_))
+    g = mod.func('Corr._apply_func_to_corr')
+    nan = [c for c in walk(g) if isinstance(c, ast.Call) and call_name(c) == 'isnan']
+    key = 'correlators.py:Corr._apply_func_to_corr#nan-test'
+    if not nan:
+        ctx.unrec(rule, key, 'NaN test not found')
+    else:
+        arg = nan[0].args[0]
+        base = arg
+        while isinstance(base, ast.Attribute):
+            base = base.value
+        src = base
+        if isinstance(base, ast.Name):
+            ds = [s_ for s_ in statements(g) if isinstance(s_, ast.Assign) and unparse(s_.targets[0]) == base.id]
+            if len(ds) == 1:
+                src = ds[0].value
+        whole = isinstance(src, ast.Call) and call_name(src) in ('sum', 'any', 'max', 'min', 'all', 'isnan')
+        ctx.check(rule, key, whole, 'the NaN test looks at an aggregate of the whole timeslice',
+                  'the NaN test looks at `%s`, one entry of the timeslice: NaN entries elsewhere in a matrix stay defined (and for N > 1 the entry has no .value, so the test is skipped)' % unparse(src), mod.loc(nan[0]))
+
+
 def d11_check_owner(ctx, mod):
     """a timeslice is judged with the dimension of the correlator it belongs to: in _check_for_none(A, B) with B = <obj>.content[...]
     (or an element iterated from <obj>.content), A is <obj>"""
@@ -532,6 +574,7 @@ def run(ctx):
     ctx.rule('C14-D10', 'container: padding, extent, item access, definition of undefined')
     ctx.guarded('C14-D10', 'correlators.py@container', d10_container, ctx, mod)
     ctx.guarded('C14-D10', 'correlators.py@none-test-owner', d11_check_owner, ctx, mod)
+    ctx.guarded('C14-D7', 'correlators.py@hankel-nan', d12_hankel_and_nan, ctx, mod)
     from .. import unusedparams, leakedloop
     ctx.rule('C14-D9', 'every accepted option is read (no silently ignored parameter); no loop variable read after its loop')
     for mn_ in ('correlators',):
@@ -541,6 +584,8 @@ def run(ctx):
 
 
 SELFTEST = [
+    ('hankel-cutoff-off-by-one', 'pyerrors/correlators.py', "(t + 2 * (N - 1)) >= self.T", "(t + 2 * (N - 1)) > self.T", 'C14-D7'),
+    ('benign-hankel-cutoff', 'pyerrors/correlators.py', "(t + 2 * (N - 1)) >= self.T", "t + 2 * N - 1 > self.T", 'BENIGN'),
     ('none-test-wrong-owner', 'pyerrors/correlators.py', "                if _check_for_none(self, self.content[t]) or _check_for_none(y, y.content[t]):\n                    newcontent.append(None)\n                else:\n                    newcontent.append(self.content[t] + y.content[t])", "                if _check_for_none(self, self.content[t]) or _check_for_none(self, y.content[t]):\n                    newcontent.append(None)\n                else:\n                    newcontent.append(self.content[t] + y.content[t])", 'C14-D10'),
     ('fix-reverted-repr', 'pyerrors/correlators.py', "            print_range = [print_range[0], print_range[1] + 1]", "            print_range[1] += 1", 'C14-D4'),
     ('fix-reverted-antisym', 'pyerrors/correlators.py', "        if test.content[0] is not None:\n            if not all([o.is_zero_within_error(3) for o in test.content[0]]):\n                warnings.warn(\"Correlator does not seem to be anti-symmetric around x0=0.\", RuntimeWarning)", "        if not all([o.is_zero_within_error(3) for o in test.content[0]]):\n            warnings.warn(\"Correlator does not seem to be anti-symmetric around x0=0.\", RuntimeWarning)", 'C14-D1'),
